@@ -6,4 +6,17 @@ for id in $(ls seeded); do
   n=$(python3 -c "import json,sys;print(len(json.load(open('/verif/mutants/results/$id.json'))['checks']))" 2>/dev/null || echo 0)
   if [ "$n" -lt "$N" ]; then tools/eval_mutant.py "$id" seeded/$id/patch.diff --jobs 4 --workers 6 --demo seeded/$id/demo.py --tests; fi
 done
-for f in mutants/reverts/revert_*.diff; do n=$(basename $f .diff); [ -f mutants/results/$n.json ] || tools/eval_mutant.py $n $f --jobs 4 --workers 6; done
+# reverted fixes: the property that found the defect plus every check that takes < 15 s (full matrix only for seeded changes)
+FAST=C04,C05,C06,C09,C10,C14,C15,C16,C17,C20
+for f in mutants/reverts/revert_*.diff; do
+  n=$(basename $f .diff); c=${n#revert_}
+  [ -f mutants/results/$n.json ] && continue
+  props=$(python3 -c "
+import json
+ps=set()
+for l in open('/verif/known_findings.jsonl'):
+    j=json.loads(l)
+    if j.get('commit','').startswith('$c'): ps.add(j['property'])
+print(','.join(sorted(ps)))")
+  tools/eval_mutant.py $n $f --jobs 4 --workers 6 --checks "${props:+$props,}$FAST"
+done
